@@ -39,7 +39,7 @@ rvars == <<rs, rwin, ravail, infl, isRecv, pbuf, pwu, cwinR, cavailR, cinfl, ini
 BaseHdr == [ok |-> TRUE, canon |-> "", cls |-> <<>>, status |-> 0, cl |-> -1, n |-> 0, size |-> 0]
 BaseFrame == [ty |-> "", tyn |-> 0, fl |-> 0, sid |-> 0, len |-> 0, es |-> FALSE, eh |-> FALSE, ack |-> FALSE, bad |-> "",
               inc |-> 0, ch |-> 0, cl |-> 0, last |-> 0, dbg |-> 0, dlen |-> 0, pl |-> "", prom |-> 0,
-              hb |-> FALSE, bes |-> FALSE, blen |-> 0, bt |-> "", set |-> NoSettings, hdr |-> BaseHdr]
+              hb |-> FALSE, bes |-> FALSE, blen |-> 0, bt |-> "", pcls |-> <<>>, set |-> NoSettings, hdr |-> BaseHdr]
 NoErr == [kind |-> "", rh |-> 0, rl |-> 0, has |-> FALSE, remote |-> FALSE, library |-> FALSE, iokind |-> "", msg |-> ""]
 BaseApi == [t |-> "api", ep |-> "s", task |-> "m", call |-> "", sid |-> 0, tag |-> 0, res |-> "ok", n |-> 0, v |-> 0, eos |-> FALSE,
             off |-> 0, intact |-> TRUE, hdr |-> "", status |-> 0, ch |-> 0, cl |-> 0, e |-> NoErr, psid |-> 0]
